@@ -37,15 +37,28 @@ def build_hierarchy(spec):
     d = len(spec["placements"])
     A = Alphabet.NT_STRICT
     TYPES = TYPES_NO_CHUNK if spec.get("no_chunk_level") else globals()["TYPES"]
+    # the two built-in types may be spelled in any casing ("Chromosome", "SEQUENCE_CHUNK"): they denote the same type
+    case = {"upper": str.upper, "title": lambda x: "_".join(w.capitalize() for w in x.split("_"))}.get(spec.get("type_case"))
+    if case:
+        TYPES = [case(t_) if t_ in ("chromosome", "sequence_chunk") else t_ for t_ in TYPES]
     # Q[i]: Parent of level i carrying the placement of level i+1 on it, and its own parent chain
     chain = None
+    seq_objs = []
     for i in range(d + 1):
-        kwargs = dict(id=tag + "L%d" % i, sequence_type=TYPES[i], sequence=Sequence(seqs[i], A, id=tag + "L%d" % i, type=TYPES[i]))
+        skw = {}
+        if i >= 1 and (spec.get("seq_knows_parent") or [False] * (d + 1))[i] and seq_objs[i - 1].parent is None:
+            # the sequence of this level records on its own which molecule it was cut from (name, type, bases) but not where, nor
+            # that molecule's ancestry: the placement and the rest of the chain come in through parent= (which wins, documented).
+            # (Not on two consecutive levels: the library compares the recorded grandparent with the explicit one, location included.)
+            skw["parent"] = Parent(id=tag + "L%d" % (i - 1), sequence_type=TYPES[i - 1], sequence=seq_objs[i - 1])
+        seq_objs.append(Sequence(seqs[i], A, id=tag + "L%d" % i, type=TYPES[i], **skw))
+        kwargs = dict(id=tag + "L%d" % i, sequence_type=TYPES[i], sequence=seq_objs[i])
         if i < d:
             kwargs["location"] = mkloc(spec["placements"][i])
         if chain is not None:
             kwargs["parent"] = chain
         chain = Parent(**kwargs)
+    build_hierarchy.seq_objs = seq_objs   # the Sequence objects of the levels (a sequence that names its parent is equal only to one that does too)
     return chain, seqs, maps, strands, tag
 
 
@@ -58,6 +71,10 @@ def compose_down(pos_list, strand, maps, strands, frm, to):
 
 
 def check_hierarchy(spec, ctx):
+    if spec.get("type_case"):
+        ctx.label("built_in_types_in_other_casing")
+    if any((spec.get("seq_knows_parent") or [])[1:]):
+        ctx.label("a_sequence_names_its_parent_molecule")
     d = len(spec["placements"])
     TYPES = TYPES_NO_CHUNK if spec.get("no_chunk_level") else globals()["TYPES"]
     lowest, seqs, maps, strands, tag = build_hierarchy(spec)
@@ -91,7 +108,7 @@ def check_hierarchy(spec, ctx):
             if len(rm.blocks_of_set(set(exp_pos))) > blocks_before:
                 ctx.nt("block_split_across_parent_blocks")
         # by sequence identity (contiguous child only)
-        target_seq = Sequence(seqs[target], Alphabet.NT_STRICT, id=tag + "L%d" % target, type=TYPES[target])
+        target_seq = Sequence(seqs[target], Alphabet.NT_STRICT, id=tag + "L%d" % target, type=TYPES[target], parent=build_hierarchy.seq_objs[target].parent)
         ctx.eq(clause + ":has_ancestor_sequence", child.has_ancestor_sequence(target_seq), True)
         ctx.eq(clause + ":has_ancestor_of_type", child.has_ancestor_of_type(TYPES[target]), True)
         contiguous = len(rm.blocks_of_set(set(cpos))) == 1 and not rm.has_self_overlap(C["blocks"])
@@ -431,7 +448,9 @@ def strat_hierarchy(draw, tier="quick"):
     cb = [[cuts[2 * i], cuts[2 * i + 1]] for i in range(kc)]
     child = {"blocks": cb, "strand": draw(st.sampled_from(["+", "-"])), "order": list(draw(st.permutations(range(kc)))), "shift": 0,
              "compound": draw(st.booleans())}
-    return {"genome": G, "placements": placements, "child": child, "no_chunk_level": draw(st.integers(0, 2)) == 0}
+    return {"genome": G, "placements": placements, "child": child, "no_chunk_level": draw(st.integers(0, 2)) == 0,
+            "seq_knows_parent": [draw(st.integers(0, 3)) == 0 for _ in range(len(placements) + 1)],
+            "type_case": draw(st.sampled_from([None, None, None, "upper", "title"]))}
 
 
 @st.composite
